@@ -72,6 +72,7 @@ fn values<T: Flt>(thorough: bool) -> Vec<u64> {
             out.push(b | f.sign_mask());
         }
     }
+    out.extend(harness::valfam::break_values::<T>());
     out.sort_unstable();
     out.dedup();
     out
@@ -117,7 +118,9 @@ fn run_floats<T: Flt>(rep: &Report, cli: &Cli) {
         par_items(&idx, cli.threads, |_, &i| {
             let (oname, o) = &opts[i];
             let mut fam = Fam::new(rep, &format!("C17:{}:{}", T::NAME, fc.name));
-            let size = (fc.core.bufsize)(o);
+            // the core writer gets room to spare: whether the documented size suffices is exactly
+            // what the facade (which allocates that size itself) is being checked for
+            let size = (fc.core.bufsize)(o) + 64;
             let mut buf = vec![0u8; size];
             let is_punct = oname.starts_with("point=");
             let vs: Vec<u64> = if is_punct { vals.iter().step_by((vals.len() / 8).max(1)).copied().collect() } else { vals.clone() };
